@@ -118,6 +118,35 @@ def _run(ctx):
             else:
                 ctx.harness_error("C07", exc)
             continue
+        # ---- the same compliances by name: s11 ... s66 are the adiabatic ones; a name with the isothermal suffix (s11t) either
+        #      is not offered or is an element of the inverse of the reported *isothermal* stiffness (c11t ...)
+        if i % 4 == 0:
+            c66a, c66t = numpy.zeros((nt, ntv, 6, 6)), numpy.zeros((nt, ntv, 6, 6))
+            for k_ in keys:
+                a_, b_ = T.VOIGT21[k_]
+                c66a[..., a_ - 1, b_ - 1] = c66a[..., b_ - 1, a_ - 1] = f[..., k_]
+                c66t[..., a_ - 1, b_ - 1] = c66t[..., b_ - 1, a_ - 1] = f[..., k_] * (1 - 0.01 * (1 + k_ % 3))
+            sa, st_ = numpy.linalg.inv(c66a), numpy.linalg.inv(c66t)
+            for (a_, b_) in [(1, 1), (2, 3), (4, 4), (6, 6), (1, 2)]:
+                for suffix, want, what in (("", sa, "adiabatic"), ("s", sa, "adiabatic"), ("t", st_, "isothermal")):
+                    nm = f"s{a_}{b_}{suffix}"
+                    try:
+                        got = numpy.asarray(getattr(vb, nm))
+                    except AttributeError:
+                        ctx.count("compliance_names_not_offered" + (":" + suffix if suffix else ""))
+                        continue
+                    except Exception as exc:
+                        ctx.violation(f"compliance-by-name:raises:{type(exc).__name__}", f"{nm}: {exc_text(exc)}", case_id)
+                        continue
+                    ctx.count("compliance_names_judged")
+                    ref = want[..., a_ - 1, b_ - 1]
+                    err = numpy.abs(got - ref).max() / numpy.abs(sa).max()
+                    if err > 1e-7:
+                        other = numpy.abs(got - (sa if want is st_ else st_)[..., a_ - 1, b_ - 1]).max() / numpy.abs(sa).max()
+                        ctx.violation(f"compliance-by-name:{what}-name-returns-{'the-other-tensor' if other <= 1e-7 else 'something-else'}",
+                                      f"{system}: {nm} differs from the ({a_},{b_}) element of the inverse of the reported {what} stiffness by {err:.3g} (relative)"
+                                      + (f"; it equals the element of the inverse of the {'adiabatic' if want is st_ else 'isothermal'} one" if other <= 1e-7 else ""),
+                                      case_id, {"system": system, "name": nm})
         if i % 8 == 0:
             # history: writing result tables (all volume-base keywords) must leave the reported values as they were
             import os, shutil, tempfile
